@@ -149,7 +149,7 @@ theorem standalone_offset_zero {k : Kind} {m : List Rat} {vs : List Nat} {I : In
 /-- the state after an interaction `I` (Ising-symmetric iff `sym`) reporting the offset `d` has been
 accepted -/
 def accepted (I : Interaction) (sym : Bool) (d : Rat) (s : State) : State :=
-  { nvars := s.nvars
+  { s with
     bonds := s.bonds ++ [I]
     offset := s.offset - d
     hasClusterEdges := s.hasClusterEdges || isValidClusterEdge I.isConstant I.vars.length
@@ -159,7 +159,8 @@ def accepted (I : Interaction) (sym : Bool) (d : Rat) (s : State) : State :=
 
 theorem State.ext' {a b : State} (h1 : a.nvars = b.nvars) (h2 : a.bonds = b.bonds) (h3 : a.offset = b.offset)
     (h4 : a.hasClusterEdges = b.hasClusterEdges) (h5 : a.breaksIsing = b.breaksIsing)
-    (h6 : a.nonConstDiags = b.nonConstDiags) (h7 : a.bondWeights = b.bondWeights) : a = b := by
+    (h6 : a.nonConstDiags = b.nonConstDiags) (h7 : a.bondWeights = b.bondWeights)
+    (h8 : a.doHeatbath = b.doHeatbath) (h9 : a.doLoopUpdates = b.doLoopUpdates) : a = b := by
   cases a; cases b; simp_all
 
 theorem addCore_eq (s : State) (I : Interaction) (sym : Bool) (h : I.symUnderIsing = .ok sym) :
